@@ -47,6 +47,7 @@ type regOp struct {
 	Wrap      int      `json:"wrapped,omitempty"`          // regnode: levels of NodeUnwrapper wrapping
 	SameObj   bool     `json:"same_instance,omitempty"`    // regnode: re-register the very node instance that is registered now
 	Foreign   string   `json:"foreign_option,omitempty"`   // an option of the OTHER kind (node option on a pipeline call, or vice versa): must be ignored
+	TypePanics string  `json:"type_panics,omitempty"`      // regpipe: Type() of the node registered under this id panics during the call (the caller recovers)
 	Alias     string   `json:"same_instance_as,omitempty"` // regnode: register the very node instance that is registered under this OTHER id
 }
 
@@ -89,6 +90,9 @@ func (o regOp) String() string {
 		}
 		if o.Policy2 != "" {
 			s += ",then:" + o.Policy2
+		}
+		if o.TypePanics != "" {
+			s += ",Type() of node " + o.TypePanics + " panics during the call"
 		}
 		if o.Foreign != "" {
 			s += ",+node-option:" + o.Foreign
@@ -281,7 +285,34 @@ func (w *regWorld) apply(op regOp) (ms []mismatch, failed bool) {
 		for i, s := range op.NodeIDs {
 			nids[i] = el.NodeID(s)
 		}
-		err := w.broker.RegisterPipeline(el.Pipeline{PipelineID: el.PipelineID(op.PID), EventType: el.EventType(op.Typ), NodeIDs: nids}, opts...)
+		var panicking *recNode
+		if mn := w.model.nodes[op.TypePanics]; op.TypePanics != "" && mn != nil {
+			panicking = mn.obj
+			panicking.typePanics = true
+		}
+		var err error
+		panicked := func() (p bool) {
+			defer func() {
+				if r := recover(); r != nil {
+					if !strings.Contains(fmt.Sprint(r), "before the node was configured") {
+						panic(r)
+					}
+					p = true
+				}
+			}()
+			err = w.broker.RegisterPipeline(el.Pipeline{PipelineID: el.PipelineID(op.PID), EventType: el.EventType(op.Typ), NodeIDs: nids}, opts...)
+			return false
+		}()
+		if panicking != nil {
+			panicking.typePanics = false
+		}
+		if panicked {
+			// the call did not complete: nothing is registered, nothing is pinned (the checks after
+			// this step compare every observable with the unchanged model)
+			simrt.Probe("registry.register-pipeline-panicked-in-user-code")
+			failed = true
+			break
+		}
 		for i := range nids {
 			nids[i] = "scribbled-over-by-the-caller" // the slice is the caller's: it may reuse it once the call has returned
 		}
@@ -816,6 +847,9 @@ func runRegistrySeqOps(rc *RunCtx, prop string, fixed []regOp) {
 			if (prop == "C05" || prop == "C07") && o.Policy != "" && tp.Choose(4, "policy2") == 0 {
 				o.Policy2 = secondPolicy(o.Policy, tp.Choose(3, "policy2-kind"))
 			}
+			if prop == "C06" && len(o.NodeIDs) > 0 && tp.Choose(6, "type-panics") == 0 {
+				o.TypePanics = o.NodeIDs[tp.Choose(len(o.NodeIDs), "which-node")]
+			}
 			if (prop == "C05" || prop == "C07" || prop == "C06") && tp.Choose(5, "identical") == 0 {
 				// re-register a registered pipeline with exactly the node list it has now
 				// (valid or not depends on what is registered under those ids NOW)
@@ -1163,8 +1197,33 @@ func runReopenConc(rc *RunCtx) {
 		desc = append(desc, fmt.Sprintf("%s/p%d", typ, p))
 		defs = append(defs, el.Pipeline{PipelineID: el.PipelineID(fmt.Sprintf("p%d", p)), EventType: el.EventType(typ), NodeIDs: ids})
 	}
+	// a Broker that serves many event types (one pipeline each); in half of those runs the sink of EVERY
+	// one of them fails to reopen: Reopen still returns, with one of the errors
+	var wideFailing []*reopenNode
+	if tp.Choose(4, "many-event-types") == 0 {
+		nx := 8 + tp.Choose(6, "extra-types")
+		allFail := tp.Choose(2, "all-of-them-fail") == 0
+		for i := 0; i < nx; i++ {
+			f, m, k := mk(fmt.Sprintf("fx%d", i), el.NodeTypeFilter), mk(fmt.Sprintf("mx%d", i), el.NodeTypeFormatter), mk(fmt.Sprintf("kx%d", i), el.NodeTypeSink)
+			def := el.Pipeline{PipelineID: el.PipelineID(fmt.Sprintf("px%d", i)), EventType: el.EventType(fmt.Sprintf("tx%d", i)), NodeIDs: []el.NodeID{el.NodeID(f.label), el.NodeID(m.label), el.NodeID(k.label)}}
+			if err := b.RegisterPipeline(def); err != nil {
+				rc.Failf("C20.setup", "", "%v", err)
+				return
+			}
+			listed = append(listed, f, m, k)
+			if allFail {
+				k.fail = fmt.Errorf("injected reopen error of %s", k.label)
+				wideFailing = append(wideFailing, k)
+			}
+		}
+		desc = append(desc, fmt.Sprintf("+%d event types with a pipeline each (all their sinks fail to reopen: %v)", nx, allFail))
+		simrt.Probe("reopen.many-event-types")
+		if allFail {
+			simrt.Probe("reopen.many-failing-event-types")
+		}
+	}
 	var failing, failing2 *reopenNode
-	if tp.Choose(3, "failnode") == 0 {
+	if len(wideFailing) == 0 && tp.Choose(3, "failnode") == 0 {
 		failing = listed[tp.Choose(len(listed), "which")]
 		failing.fail = reopenFailure(failing.label, tp.Choose(6, "failure-kind"))
 		if tp.Choose(2, "second-failing-node") == 0 {
@@ -1232,7 +1291,7 @@ func runReopenConc(rc *RunCtx) {
 		rc.Failf("C20.stuck", stuckClass(sim), "concurrent Reopen did not finish: %s", strings.Join(sim.StuckInfo, "; "))
 		return
 	}
-	if zeroSize && failing == nil {
+	if zeroSize && failing == nil && len(wideFailing) == 0 {
 		for i, what := range []string{"zsf (a filter of a zero-size type)", "zsm (a formatter of a zero-size type)"} {
 			if zsReopens[i] < nCallers {
 				rc.Failf("C20.reopen-missed", "zero-size-node", "%d Reopen calls returned, node %s was reopened %d times: every call must reach it", nCallers, what, zsReopens[i])
@@ -1242,6 +1301,16 @@ func runReopenConc(rc *RunCtx) {
 	}
 	for i, c := range calls {
 		if !c.done {
+			continue
+		}
+		if len(wideFailing) > 0 {
+			if c.err == nil {
+				rc.Failf("C20.reopen-error", "swallowed-conc", "the sinks of %d event types fail in Reopen but Reopen call %d returned nil", len(wideFailing), i)
+				return
+			}
+			if !strings.Contains(c.err.Error(), "injected reopen error of kx") {
+				rc.Failf("C20.reopen-error", "not-carried-conc", "Reopen call %d returned %q which carries none of the failing nodes' errors", i, c.err)
+			}
 			continue
 		}
 		if failing == nil {
